@@ -16,6 +16,9 @@ SUBMISSIONS = {
     "parts": "print('pre')\n##### Part 1\nfirst = 1\nprint(first)\n##### Part 2\nsecond = undefined_thing\n",
     # a standard module that nothing in the process has imported yet, with module-level state
     "modset": "import calendar\ncalendar.setfirstweekday(6)\nprint('set')\n",
+    # (the same text, graded by a script that lets TIFA run: TIFA imports the modules a submission names FOR REAL, outside
+    # the sandbox's module-table patch, so the module stays loaded and keeps its state)
+    "modsetT": "import calendar\ncalendar.setfirstweekday(6)\nprint('set')\n",
     "modget": "import calendar\nprint(calendar.firstweekday())\n",
     "realmut": "import math\nmath.pi = 3\nprint(math.pi)\n",
     "mathy": "import math\narea = math.pi * 2 ** 2 + 1\nprint(area)\n",
@@ -156,7 +159,7 @@ def slot_projection():
     from pedal.questions.pool import Pool
     if next_pool_position(R) != 0 or Pool._CURRENT:
         dirty.append("question_pools")
-    if real_module_state() != PRISTINE_MODULES:
+    if real_module_state() != PRISTINE_MODULES or "calendar" in _sys.modules:
         dirty.append("real_modules")
     return dirty
 
